@@ -113,11 +113,19 @@ let () =
      so that a frequent difference cannot crowd a rare one out of the report; all are counted *)
   let printed = Hashtbl.create 64 in
   let prev_name = ref "" in
+  (* cls: class tag of a difference whose EXACT preconditions of a known finding were established
+     here from the extracted models (never from the mere presence of an operation in the case);
+     tagged lines have their own signature and at most 1 is printed per job, so they cannot crowd
+     untagged ones out of the report *)
+  let cls = ref "" in
   let report kind k impl text =
-    let sg = kind ^ k ^ (if impl = "P" then "P" else "") ^ "/" ^ !prev_name in
+    let sg = kind ^ k ^ (if impl = "P" then "P" else "") ^ "/" ^ !prev_name ^ "/" ^ !cls in
     let n = try Hashtbl.find printed sg with Not_found -> 0 in
     Hashtbl.replace printed sg (n + 1);
-    if n < 3 then print_string text in
+    if n < (if !cls = "" then 3 else 1) then print_string text in
+  (* string:retain-inverted: set by a retain call on which "keep where f" and "remove where f"
+     give different contents; holds the reference state the inverted predicate gives *)
+  let pending_retain : sstr option ref = ref None in
   let flush_case () =
     if Buffer.length cur_case > 0 then begin
       let key = Digest.string (Buffer.contents cur_case) in
@@ -131,7 +139,7 @@ let () =
       let toks = List.filter (fun s -> s <> "") (String.split_on_char ' ' line) in
       match toks with
       | "C" :: kind :: flavour :: elk :: cap :: _ ->
-        flush_case (); incr case_no; op_no := 0; dead := false; spec_dead := false; prev_name := "";
+        flush_case (); incr case_no; op_no := 0; dead := false; spec_dead := false; prev_name := ""; pending_retain := None;
         (* the case key deliberately excludes the storage flavour: distinct = distinct histories *)
         Buffer.add_string cur_case (kind ^ " " ^ cap ^ "|");
         let c = n_of_int (int_of_string cap) in
@@ -174,6 +182,7 @@ let () =
             (* generic path: (model observation, spec observation, stored something, next state) *)
             let impl_spec = ref impl in
             let resync = ref false in
+            cls := "";
             let (om, os, stored, st') = (match !st with
               | SVec (v, sp) ->
                 let o = parse_vop name args in
@@ -187,11 +196,19 @@ let () =
                 let (m', ob) = str_step m o in
                 (* the oracle of the property is the reference without the deviations (dev = false) *)
                 let (sp', sob) = sstr_step false sp o in
-                (* known deviation string:retain-inverted: the difference shows in the content observed
-                   right after retain; it is reported, then the reference continues from the
-                   implementation's content so that later calls of the case are still checked *)
-                let sp' = if name = "bytes" && !prev_name = "retain" && show_o sob <> impl && show_o ob = impl
-                          then (resync := true; sstr_of_str m') else sp' in
+                (* known finding string:retain-inverted, exact preconditions only: the previous call WAS
+                   retain, keep-where-f and remove-where-f differ on the content it was applied to, the
+                   content observed right after it differs from the reference AND equals exactly what
+                   the inverted predicate gives.  Then (and only then) the line is tagged and the
+                   reference continues from that content; anything else is an ordinary difference. *)
+                let sp' = (match o, !pending_retain with
+                  | SBytes, Some d when !prev_name = "retain" && show_o sob <> impl && show_o (OL (sbytes d)) = impl ->
+                    resync := true; cls := "retain-inverted"; d
+                  | _ -> sp') in
+                (match o with
+                 | SRetain _ -> let (d, _) = sstr_step true sp o in
+                   pending_retain := (if sbytes d <> sbytes sp' then Some d else None)
+                 | _ -> pending_retain := None);
                 (show_o ob, show_o sob,
                  (match o with SPush _ | SPushBytes _ | SInsert _ | SInsertBytes _ -> ob = OUnit | _ -> false),
                  SStr (m', sp'))
@@ -230,7 +247,7 @@ let () =
                this case: report that first difference only *)
             if os <> !impl_spec && not !spec_dead then begin
               incr mm_spec; if not !resync then spec_dead := true;
-              report "spec" k impl (Printf.sprintf "MISMATCH case=%d op=%d kind=spec prev=%s line=[%s] spec=%s impl=%s\n" !case_no !op_no !prev_name line os impl) end;
+              report "spec" k impl (Printf.sprintf "MISMATCH case=%d op=%d kind=spec prev=%s%s line=[%s] spec=%s impl=%s\n" !case_no !op_no !prev_name (if !cls = "" then "" else " cls=" ^ !cls) line os impl) end;
             prev_name := name;
             if stored then cur_nontrivial := true;
             if impl = "P" || om <> impl then dead := true;
